@@ -8,7 +8,7 @@ order and ungated schedules are run on the real regclient.ImageCopy; at the resu
 walked independently (encoding/json, sha256 against the source) and TLC judges the facts against
 the C03 obligation of (P) spec/CopyProp.tla.  See design.d/C03-C04-C14.md.
 """
-import copy_common as cc
+from props import copy_common as cc
 import vlib
 
 
@@ -24,13 +24,15 @@ def run(ctx):
     rng = e.rng
 
     # 1. the design spec, fault-free
-    runs = [("ImageCopyMC", "C03_mc_quick.cfg", "4 shapes x 3 pairings x 4 option sets x 2 feature sets x corner targets, reduced", {}),
-            ("ImageCopyMC", "C03_mc_full.cfg", "img / inline, every pre-existing subset, full interleaving", {}),
-            ("ImageCopyMC", "C03_live.cfg", "termination under fairness (img, 1 fault + cancel, throttle 2)", {"workers": 8})]
+    runs = [("ImageCopyMC", "C03_mc_quick.cfg", "img / idx2 / dtag x 2 pairings x 4 option sets x corner targets x 2 tag states, reduced", {}),
+            ("ImageCopyMC", "C03_mc_refs.cfg", "art with referrers, two registries, reduced", {}),
+            ("ImageCopyMC", "C03_mc_full.cfg", "img / inline, every pre-existing subset, full interleaving", {})]
     if th:
-        runs += [("ImageCopyMC", "C03_mc_t1.cfg", "14 shapes x 6 pairings x 11 option sets x 2 feature sets x corner targets, reduced", {"timeout": 3000}),
-                 ("ImageCopyMC", "C03_mc_t2.cfg", "6 shapes x 5 feature sets x source / target by digest, reduced", {"timeout": 3000}),
-                 ("ImageCopyMC", "C03_mc_t3.cfg", "8 small shapes, throttle 3, full interleaving", {"timeout": 3000})]
+        runs += [("ImageCopyMC", "C03_mc_t1.cfg", "11 shapes x 4 pairings x 6 option sets x corner targets x 2 tag states, reduced", {"timeout": 3000}),
+                 ("ImageCopyMC", "C03_mc_t2.cfg", "art / artidx with referrers (all / filtered), referrers API on / off, reduced", {"timeout": 3000}),
+                 ("ImageCopyMC", "C03_mc_t3.cfg", "5 small shapes, throttle 3, target by tag / digest, full interleaving", {"timeout": 3000}),
+                 ("ImageCopyMC", "C03_mc_t4.cfg", "4 shapes x 4 pairings x 4 option sets x 5 feature sets x source by tag / digest, reduced", {"timeout": 3000}),
+                 ("ImageCopyMC", "C03_live.cfg", "termination under fairness (img, 1 fault + cancel, throttle 2)", {"workers": 8, "timeout": 3000})]
     mc, states, trans = cc.run_mc(ctx, runs)
     por = cc.por_crosscheck(ctx) if th else None
 
@@ -56,6 +58,7 @@ def run(ctx):
     acc, rej = e.validate(res, "C03", max_reports=40)
 
     # 4. binding demo
+    e.check_stalls()
     demos = e.binding_demo(res) if not ctx.violations else []
 
     cov = cc.summarize(res)
